@@ -196,6 +196,13 @@ impl Prop for C17 {
                 let i = I { ty, v: v.clamp(lo, hi) };
                 Case { op, d: D::new(c, s), y: if l { Rhs::IntL(i) } else { Rhs::IntR(i) }, n, mode, t: None }
             }),
+            // Decimal derived from the integer: same value at some scale, or a neighbour / multiple of it
+            4 => (0u8..15, arb_int(), 0u8..=18, -1i128..=1, -3i128..=3, any::<bool>(), 0u8..=18, 0u8..8).prop_map(|(op, i, s, off, mult, l, n, mode)| {
+                let m = if mult == 0 { 1 } else { mult };
+                let c = i.v.checked_mul(m).and_then(|v| v.checked_mul(10i128.pow(s as u32))).and_then(|v| v.checked_add(off)).filter(|v| *v != i128::MIN);
+                let d = match c { Some(c) => D::new(c, s), None => D::new(i.v.clamp(-MAXC, MAXC), 0) };
+                Case { op, d, y: if l { Rhs::IntL(i) } else { Rhs::IntR(i) }, n, mode, t: None }
+            }),
             // integer / integer forms of div_rounded and quantize
             2 => (any::<bool>(), arb_int(), arb_int(), n, 0u8..8, any::<bool>(), -300i128..=300, -300i128..=300).prop_map(|(q, a, b, n, mode, small, sa, sb)| {
                 let (lo, hi) = int_range(b.ty);
